@@ -98,6 +98,17 @@ void battery_group(hwloc_topology_t t, int group, struct sb *b)
         sb_printf(b, "local%lu=%d:%u;", fl, rc, nr);
       }
     }
+    /* best initiator of every attribute for every NUMA node (the one getter the walk above does not reach) */
+    for (unsigned k = 0; k < nn && k < 16; k++) {
+      hwloc_obj_t node = hwloc_get_obj_by_type(t, HWLOC_OBJ_NUMANODE, k);
+      for (hwloc_memattr_id_t id = 0; id < 10; id++) {
+        struct hwloc_location best; hwloc_uint64_t v = 0; memset(&best, 0, sizeof(best));
+        int rc = hwloc_memattr_get_best_initiator(t, id, node, 0, &best, &v);
+        sb_printf(b, "bi%u/%u=%d:%" PRIu64 ";", k, id, rc, rc == 0 ? v : 0);
+        if (rc == 0 && best.type == HWLOC_LOCATION_TYPE_CPUSET) put_bitmap_queries(b, best.location.cpuset);
+        else if (rc == 0 && best.type == HWLOC_LOCATION_TYPE_OBJECT && best.location.object) sb_printf(b, "obj%" PRIu64 ";", best.location.object->gp_index);
+      }
+    }
     { hwloc_bitmap_t ns = hwloc_bitmap_alloc(); int rc = hwloc_topology_get_default_nodeset(t, ns, 0); sb_printf(b, "default=%d", rc); put_bitmap_queries(b, ns); hwloc_bitmap_free(ns); (void)nn; }
     break; }
   case BAT_CPUKINDS: {
